@@ -122,6 +122,8 @@ fn call(oracle: &str, v: &Value) -> Value {
         "lsp::dependency_ranges" => server::dependency_ranges(v),
         #[cfg(feature = "lsp")]
         "lsp::pipe_ranges" => server::pipe_ranges(v),
+        #[cfg(feature = "lsp")]
+        "incan::cli_check_location" => c05::cli_check_location(v),
         "syntax::get_line_info" | "syntax::format_error_location" => {
             use incan_syntax::diagnostics::{format_error, CompileError};
             use incan_syntax::ast::Span;
@@ -404,8 +406,16 @@ mod server {
     pub fn pipe_ranges(v: &Value) -> Value {
         use tokio::io::{AsyncReadExt, AsyncWriteExt};
         let di = v["doc"].as_u64().unwrap() as usize % SERVER_DOCS.len();
-        let source = SERVER_DOCS[di].to_string();
-        let src2 = source.clone();
+        // mode 0: the document alone; mode 1: a second, longer document with the same path under another URI scheme is opened
+        // after it (a diff view); mode 2: the document is edited first — three comment lines inserted at the top, then the
+        // second of them deleted (two SEQUENTIAL edits in one notification), sent the way the server's advertised sync kind asks for
+        let mode = v["mode"].as_u64().unwrap_or(0) % 3;
+        let original = SERVER_DOCS[di].to_string();
+        let inserted = "# one\n# two\n# three\n";
+        // (the edited text stays well-formed: the second edit deletes one of the comment lines the first edit inserted)
+        let source = if mode == 2 { format!("# one\n# three\n{}", original) } else { original.clone() };
+        let src2 = original.clone();
+        let final_text = source.clone();
         let got = guarded(move || {
             let rt = tokio::runtime::Builder::new_current_thread().enable_all().build().unwrap();
             rt.block_on(async {
@@ -436,6 +446,24 @@ mod server {
                     send(&mut w, json!({"jsonrpc": "2.0", "method": "textDocument/didOpen", "params": {"textDocument": {"uri": uri, "languageId": "incan", "version": 1, "text": src2}}})).await;
                     // wait until the document has been analysed (its diagnostics are published)
                     loop { let m = recv(&mut r).await; if m.is_null() { return None; } if m["method"] == "textDocument/publishDiagnostics" && m["params"]["uri"] == uri { break; } }
+                    if mode == 1 {
+                        let other = "git:/verif/main.incn?%7B%22ref%22%3A%22HEAD%22%7D";
+                        let longer = format!("{}\n\n\ndef extra_one() -> int:\n    return 1\n\ndef extra_two() -> int:\n    return 2\n\n\n\n", src2.trim_end());
+                        send(&mut w, json!({"jsonrpc": "2.0", "method": "textDocument/didOpen", "params": {"textDocument": {"uri": other, "languageId": "incan", "version": 1, "text": longer}}})).await;
+                        loop { let m = recv(&mut r).await; if m.is_null() { return None; } if m["method"] == "textDocument/publishDiagnostics" && m["params"]["uri"] == other { break; } }
+                    }
+                    if mode == 2 {
+                        let sync = &caps["textDocumentSync"];
+                        let kind = if sync.is_object() { sync["change"].as_u64().unwrap_or(1) } else { sync.as_u64().unwrap_or(1) };
+                        let changes = if kind == 2 {
+                            // sequential edits (the protocol applies each to the result of the previous one)
+                            json!([{"range": {"start": {"line": 0, "character": 0}, "end": {"line": 0, "character": 0}}, "text": inserted},
+                                   {"range": {"start": {"line": 1, "character": 0}, "end": {"line": 2, "character": 0}}, "text": ""}])
+                        } else { json!([{"text": final_text}]) };
+                        send(&mut w, json!({"jsonrpc": "2.0", "method": "textDocument/didChange", "params": {"textDocument": {"uri": uri, "version": 2}, "contentChanges": changes}})).await;
+                        loop { let m = recv(&mut r).await; if m.is_null() { return None; } if m["method"] == "textDocument/publishDiagnostics" && m["params"]["uri"] == uri && m["params"]["version"] != json!(1) { break; } }
+                    }
+                    let src2 = final_text.clone();
                     let advertised = |k: &str| -> bool { !(caps[k].is_null() || caps[k] == json!(false)) };
                     // cursor positions: every line start, every 3rd character boundary, and the end of the text
                     let mut cursors: Vec<(u32, u32)> = Vec::new();
@@ -492,7 +520,7 @@ mod server {
                 _ => {}
             }
         }
-        let echo = json!({"doc": di, "source": source});
+        let echo = json!({"doc": di, "mode": mode, "source": source});
         match &got {
             Ok(Some(answers)) => {
                 let mut bad = Vec::new(); let mut n = 0usize;
@@ -824,6 +852,46 @@ mod c05 {
     /// C05 bounded stand-in for the call site of the runtime `range`: `range(e)`, `range(s, e)`, `range(s, e, k)` in a
     /// for loop must become `incan_stdlib::iter::range(start, end, step)` with the written arguments in the written
     /// positions and the documented defaults (start 0, step 1).
+    /// C19 bounded stand-in for the command-line path (read_source -> lexer / parser -> format_error): the file is written to
+    /// disk and checked with the real `incan::cli::commands::check_file`; the `--> file:line:col` of every reported error must
+    /// name a line of THAT file and a column on it — also when the file has no final newline and the error is at its end.
+    pub fn cli_check_location(v: &Value) -> Value {
+        let docs: [&str; 6] = ["def f() -> int:\n  return (1 +", "def f() -> int:", "def main() -> None:\n    x: int = 1 +", "def main() -> None:\n    x = \"ééé\" + $",
+                               "def f() -> int:\n  return (1 +\n", "x = $"];
+        let text = docs[v["doc"].as_u64().unwrap_or(0) as usize % docs.len()].to_string();
+        let dir = std::env::temp_dir().join(format!("verif_c19_cli_{}_{}", std::process::id(), v["doc"]));
+        let _ = std::fs::remove_dir_all(&dir);
+        if std::fs::create_dir_all(&dir).is_err() { return json!({"error": "cannot create a scratch directory"}); }
+        let path = dir.join("a.incn");
+        let _ = std::fs::write(&path, &text);
+        let p2 = path.to_string_lossy().to_string();
+        let got = guarded(move || match incan::cli::commands::check_file(&p2) { Ok(_) => String::new(), Err(e) => e.message });
+        let _ = std::fs::remove_dir_all(&dir);
+        let echo = json!({"doc": v["doc"], "text": text});
+        match &got {
+            Ok(msg) => {
+                let plain: String = { let mut o = String::new(); let mut esc = false; for ch in msg.chars() { if esc { if ch == 'm' { esc = false; } } else if ch == '\u{1b}' { esc = true; } else { o.push(ch); } } o };
+                let lines: Vec<&str> = text.split('\n').collect();
+                let mut locs = Vec::new(); let mut bad = Vec::new();
+                for l in plain.lines() {
+                    if let Some(i) = l.find("--> ") {
+                        let loc = l[i + 4..].trim();
+                        let parts: Vec<&str> = loc.rsplitn(3, ':').collect();
+                        if let (Some(c), Some(ln)) = (parts.get(0).and_then(|x| x.parse::<usize>().ok()), parts.get(1).and_then(|x| x.parse::<usize>().ok())) {
+                            locs.push(json!([ln, c]));
+                            // a line of the file (the text after a final newline counts as a last, empty line), a column on it or just past its end
+                            let ok = ln >= 1 && ln <= lines.len() && c >= 1 && c <= lines[ln - 1].chars().count() + 1;
+                            if !ok { bad.push(json!([ln, c])); }
+                        }
+                    }
+                }
+                verdict(bad.is_empty() && !locs.is_empty(), json!({"reported": locs, "outside_the_file": bad}), json!({"lines_in_file": lines.len(), "every location": "1 <= line <= lines, 1 <= col <= chars(line) + 1"}), &echo,
+                        "locations printed by the command-line checker lie inside the file that was read")
+            }
+            Err(m) => verdict(false, json!({"panicked": m}), json!("no panic"), &echo, "the command-line checker must not panic"),
+        }
+    }
+
     pub fn emit_range(v: &Value) -> Value {
         let forms = ["var", "zero", "neg", "two", "expr"];
         let txt = |f: &str, var: &str| -> String { match f { "var" => var.to_string(), "zero" => "0".to_string(), "neg" => "-3".to_string(), "two" => "2".to_string(), _ => format!("{} + 1", var) } };
@@ -1227,16 +1295,21 @@ mod c07 {
         let op = ops[v["op"].as_u64().unwrap() as usize % ops.len()];
         let ann_float = v["ann_float"].as_bool().unwrap();
         // (operand text, is float, loop header or "")
-        let sources: [(&str, bool, &str); 8] = [
+        let sources: [(&str, bool, &str); 10] = [
+            // an un-annotated module-level const declared BELOW the function that uses it (kind from its initializer)
+            ("STEP", false, "const-below"), ("RATE", true, "const-below"),
             ("pair.0", false, "for pair in zip(xs, fs):"), ("pair.1", true, "for pair in zip(xs, fs):"),
             ("pair.0", false, "for pair in enumerate(fs):"), ("pair.1", true, "for pair in enumerate(fs):"),
             ("xs[0]", false, ""), ("fs[0]", true, ""), ("d[\"k\"]", true, ""), ("len(fs)", false, ""),
         ];
-        let (srcx, sf, header) = sources[v["src"].as_u64().unwrap() as usize % 8];
+        let (srcx, sf, header) = sources[v["src"].as_u64().unwrap() as usize % 10];
+        let below = header == "const-below";
+        let header = if below { "" } else { header };
         let float = match op { "/" => true, "**" => sf, _ => sf };
         let ak = if ann_float { "float" } else { "int" };
         let body = if header.is_empty() { format!("    y: {} = {} {} 2\n", ak, srcx, op) } else { format!("    {}\n        y: {} = {} {} 2\n", header, ak, srcx, op) };
-        let src = format!("def f(xs: List[int], fs: List[float], d: Dict[str, float]) -> None:\n{}\ndef main() -> None:\n    pass\n", body);
+        let src = format!("def f(xs: List[int], fs: List[float], d: Dict[str, float]) -> None:\n{}\ndef main() -> None:\n    pass\n{}", body,
+                          if below { "\nconst STEP = 2\nconst RATE = 2.5\n" } else { "" });
         let got = guarded(|| {
             let tokens = incan::frontend::lexer::lex(&src).map_err(|e| format!("lex: {:?}", e.first().map(|x| x.message.clone())))?;
             let prog = incan::frontend::parser::parse(&tokens).map_err(|e| format!("parse: {:?}", e.first().map(|x| x.message.clone())))?;
@@ -1371,7 +1444,7 @@ fn search(oracle: &str, seed: u64, budget: u64, skip: &[String]) -> Value {
             "lsp::span_to_range" | "syntax::get_line_info" => { let a = roff(&mut r, &s); let b = roff(&mut r, &s); json!({"s": s, "start": a, "end": b}) }
             "incan::multifile_index" => { let k = n % 8; json!({"kind": k % 4, "nested": k / 4 == 1}) }
             "incan::multifile_promotion" => { let k = n % 6; json!({"kind": 4 + k % 3, "nested": k / 3 == 1}) }
-            "incan::static_type_sources" => { let k = n % 112; json!({"op": k % 7, "ann_float": (k / 7) % 2 == 1, "src": k / 14}) }
+            "incan::static_type_sources" => { let k = n % 140; json!({"op": k % 7, "ann_float": (k / 7) % 2 == 1, "src": k / 14}) }
             "incan::static_type_nested" => {
                 // pseudo-random trees of depth <= 3 (seeded): bounded sample, not exhaustive
                 fn tree(r: &mut Rng, depth: u32) -> Value {
@@ -1402,7 +1475,8 @@ fn search(oracle: &str, seed: u64, budget: u64, skip: &[String]) -> Value {
             }
             "lsp::published_ranges" => json!({"doc": n % 6}),
             "lsp::dependency_ranges" => { let k = n % 12; json!({"dep": k % 4, "entry": k / 4}) }
-            "lsp::pipe_ranges" => json!({"doc": n % 9}),
+            "lsp::pipe_ranges" => { let k = n % 27; json!({"doc": k % 9, "mode": k / 9}) }
+            "incan::cli_check_location" => json!({"doc": n % 6}),
             "incan::fmt_error_location" => { let k = n % 15; json!({"prefix": k % 5, "lead": k / 5}) }
             "lsp::server_ranges" => {
                 // exhaustive: 6 fixed documents x every character boundary as the cursor
